@@ -2,9 +2,9 @@ package main
 
 import (
 	"fmt"
-	"sort"
 	"go/ast"
 	"go/types"
+	"sort"
 	"strings"
 )
 
@@ -313,6 +313,11 @@ func (w *World) verifyFunc(fi *FuncInfo, fc *FuncContract) (ex *Exec, err error)
 	}
 	if len(fl.breaks)+len(fl.continues) > 0 {
 		return ex, fmt.Errorf("break/continue outside loop")
+	}
+	for k := range fc.StmtHints {
+		if !fc.StmtHints[k].used {
+			return ex, fmt.Errorf("stmt hint at %s: no statement of the function starts on that line", fc.StmtHints[k].Where)
+		}
 	}
 	for n := range fc.Calls {
 		if n >= ex.callN {
